@@ -24,6 +24,15 @@ mod ffi {
             }
             let _ = w.write_str(&text[prev..]);
         }
+        // the same through the optional / fallible write-out shapes, for both outcomes: the writer must be flushed either way
+        pub fn chunks_opt(text: &DiplomatStr, cuts: &[u32], present: bool, w: &mut DiplomatWrite) -> Option<()> {
+            Self::chunks(text, cuts, w);
+            if present { Some(()) } else { None }
+        }
+        pub fn chunks_res(text: &DiplomatStr, cuts: &[u32], ok: bool, w: &mut DiplomatWrite) -> Result<(), u8> {
+            Self::chunks(text, cuts, w);
+            if ok { Ok(()) } else { Err(7) }
+        }
     }
 }
 '''
@@ -245,6 +254,13 @@ class C12(Spec):
                          f'    W_chunks((DiplomatStringView){{t, {len(text)}}}, (DiplomatU32View){{c, {len(cuts)}}}, o);\n'
                          f'    printf("o{i}:"); for (size_t k = 0; k < diplomat_buffer_write_len(o); k++) printf("%02x", (unsigned char)diplomat_buffer_write_get_bytes(o)[k]); printf("\\n");\n'
                          f'    diplomat_buffer_write_destroy(o); }}')
+            for vi, (fn, flag) in enumerate((("W_chunks_opt", "true"), ("W_chunks_opt", "false"), ("W_chunks_res", "true"), ("W_chunks_res", "false"))):
+                if (i + vi) % 3 == 0:
+                    cbody.append(f'  {{ static const char t[] = "{hexs(text)}"; static const uint32_t c[] = {{{", ".join(map(str, cuts)) or "0"}}};\n'
+                                 f'    unsigned char buf[{sz} + 8]; memset(buf, 0xEE, sizeof buf);\n'
+                                 f'    DiplomatWrite w = diplomat_simple_write((char*)buf, {sz});\n'
+                                 f'    {fn}((DiplomatStringView){{t, {len(text)}}}, (DiplomatU32View){{c, {len(cuts)}}}, {flag}, &w);\n'
+                                 f'    printf("f{i}_{vi}:%d:%zu:", (int)w.grow_failed, w.len); for (int k = 0; k < {sz} + 8; k++) printf("%02x", buf[k]); printf("\\n"); }}')
         csrc = '#include "W.h"\n#include <stdio.h>\n#include <string.h>\nint main(void) {\n' + "\n".join(cbody) + "\n  return 0;\n}\n"
         c_path = os.path.join(d, "drv.c")
         open(c_path, "w").write(csrc)
@@ -281,6 +297,17 @@ class C12(Spec):
                 viol += 1
                 ctx.violation("e2e:c-simple-overrun", {"case": {"kind": "c-simple", "chunks": chunks, "bufsize": sz}, "what": "bytes past the caller's buffer were written"}, True)
             goals.append(f"agree_simple {cnat(sz)} 238%N {clist([cbytes(c) for c in chunks])} {cbytes(mem[:sz])} {cnat(int(ln))} {cbool(fl == '1')}")
+            for vi, what in enumerate(("an Option<()> method returning Some(())", "an Option<()> method returning None", "a Result<(), u8> method returning Ok(())",
+                                       "a Result<(), u8> method returning Err")):
+                if (i + vi) % 3 == 0:
+                    total += 1
+                    fl2, ln2, hx2 = got[f"f{i}_{vi}"].split(":")
+                    mem2 = list(bytes.fromhex(hx2))
+                    if fl2 != "1" and int(ln2) < sz and mem2[int(ln2)] != 0 and len(ctx.violations) < 2:
+                        viol += 1
+                        ctx.violation("e2e:c-flush", {"case": {"kind": "c-simple-fallible", "chunks": chunks, "bufsize": sz, "variant": what},
+                                                      "what": f"after {what} wrote {int(ln2)} bytes into a {sz}-byte buffer the string is not NUL-terminated (the writer was not flushed)"}, True)
+                    goals.append(f"agree_simple {cnat(sz)} 238%N {clist([cbytes(c) for c in chunks])} {cbytes(mem2[:sz])} {cnat(int(ln2))} {cbool(fl2 == '1')}")
             ob = bytes.fromhex(got[f"o{i}"])
             if ob != text and len(ctx.violations) < 2:
                 viol += 1
